@@ -88,6 +88,39 @@ def run(R, P="C09"):
                     "every value-returning path of %s goes through a call that received (*%s, **%s)" % (mname, va, kw),
                     "%s can return a value without having forwarded the caller's arguments" % mname, cfg.fmt_path(p) if p else None)
     R.need(n_entry >= 16, "fewer entry points with (*args, **kwargs) than confirmed by hand (%d < 16)" % n_entry)
+    # every other wrapper in the package (module-level helpers, nested closures, methods taking `args, kwargs` as a pair):
+    # a call that unpacks one of the two must unpack both.  Plain uses (len(args), key computation) are not forwarding.
+    def all_funcs(fi):
+        yield fi
+        for nf in fi.nested.values():
+            for x in all_funcs(nf):
+                yield x
+    n_sites = 0
+    seen_fn = set()
+    for f0 in repo.all_functions():
+        for f in all_funcs(f0):
+            if id(f.node) in seen_fn:
+                continue
+            seen_fn.add(id(f.node))
+            a = f.node.args
+            if a.vararg and a.kwarg:
+                va, kw = a.vararg.arg, a.kwarg.arg
+            elif "args" in [x.arg for x in a.args] and "kwargs" in [x.arg for x in a.args]:
+                va, kw = "args", "kwargs"
+            else:
+                continue
+            for c in ast.walk(f.node):
+                if not isinstance(c, ast.Call):
+                    continue
+                star = any(isinstance(x, ast.Starred) and va in q.names_loaded(x.value) for x in c.args)
+                dstar = any(k.arg is None and kw in q.names_loaded(k.value) for k in c.keywords)
+                if not (star or dstar):
+                    continue
+                n_sites += 1
+                R.check(star and dstar, P + ".FORWARD", "%s:unpack:%s" % (f.qualname, q.src(c.func)[:40]), R.site(f, c),
+                        "%s receives both *%s and **%s" % (q.src(c.func)[:40], va, kw),
+                        "%s passes only %s on to %s: the caller's %s arguments are dropped" % (f.qualname, "*" + va if star else "**" + kw, q.src(c.func)[:40],
+                                                                                           "keyword" if star else "positional"))
 
     # ---- ROUTE: sync = .value() of async
     def ret_srcs(m):
@@ -282,6 +315,12 @@ def run(R, P="C09"):
         got = hasattr_seq(f)
         ok = sorted(got) == sorted(seq) if unordered else got == seq
         R.check(ok, P + ".CLASSIFY", fq, R.site(f), "%s consults %s" % (f.name, seq), "%s consults %s instead of %s" % (f.name, got, seq))
+        if unordered:
+            # any one of the markers suffices
+            rs_ = [n.value for n in q.scope_nodes(f.node) if isinstance(n, ast.Return) and n.value is not None]
+            if len(rs_) == 1 and isinstance(rs_[0], ast.BoolOp):
+                R.check(isinstance(rs_[0].op, ast.Or), P + ".CLASSIFY", fq + ":any", R.site(f), "%s is true when any marker is present" % f.name,
+                        "%s requires all markers at once: a function offering only .asynq (every @asynq() function) is no longer recognised as async" % f.name)
     for fq, want in (("decorators.get_async_fn", ["fn.asynq", "getattr(fn, 'async')", "fn", "sync_to_async_fn_wrapper", "None"]),
                      ("decorators.get_async_or_sync_fn", ["fn.asynq", "getattr(fn, 'async')", "fn"])):
         f = repo.fn(fq)
@@ -290,7 +329,7 @@ def run(R, P="C09"):
     # ---- DEDUP-KEY (function identity, thread per call)
     from .c12 import dedup_key_rule
     dedup_key_rule(R, P + ".DEDUP-KEY")
-    R.require_min(P + ".FORWARD", 45)
+    R.require_min(P + ".FORWARD", 45 + 40)
     R.require_min(P + ".BINDERS", 12)
 
 
